@@ -245,16 +245,16 @@ def matches(match, key):
 
 
 def write_replay(pid, obj):
-  d = os.path.join(VERIF, 'replays')
+  d = os.environ.get('VERIF_REPLAY_DIR') or os.path.join(VERIF, 'replays')
   os.makedirs(d, exist_ok=True)
   h = hashlib.sha1(json.dumps(obj, sort_keys=True, default=str).encode()).hexdigest()[:10]
   path = os.path.join(d, '%s-%s.json' % (pid, h))
   json.dump(obj, open(path, 'w'), indent=1, default=str)
-  return os.path.relpath(path, VERIF)
+  return os.path.relpath(path, VERIF) if path.startswith(VERIF) else path
 
 
 def write_evidence(pid, ev):
-  d = os.path.join(VERIF, 'evidence')
+  d = os.environ.get('VERIF_EVIDENCE_DIR') or os.path.join(VERIF, 'evidence')
   os.makedirs(d, exist_ok=True)
   tmp = os.path.join(d, '.%s.%d.tmp' % (pid, os.getpid()))
   json.dump(ev, open(tmp, 'w'), indent=1, default=str)
